@@ -689,7 +689,20 @@ func (b *builder) addFixed() {
 		Method{Name: "Password", Params: []Param{{"user", str}}, Results: []Param{{"", str}}},
 		Method{Name: "All", Results: []Param{{"", slice(str)}}},
 		Method{Name: "Store", Params: []Param{{"user", str}, {"pw", str}}})
-	t.FixedRequests = append(t.FixedRequests, []string{"FxMailer", "FxVault"}, []string{"FxVault", "FxMailer"}, []string{"FxNotifier"}, []string{"FxSort", "FxIO"})
+	t.FixedRequests = append(t.FixedRequests, []string{"FxMailer", "FxVault"}, []string{"FxVault", "FxMailer"}, []string{"FxNotifier"}, []string{"FxSort", "FxIO"},
+		[]string{"FxSingle", "FxEmpty"}, []string{"FxEmpty", "FxSingle"}, []string{"FxMeter", "FxMarker", "FxEmpty"}, []string{"FxEmpty", "FxMarker"})
+	// a parameter named like the source package itself, followed by one typed from that package
+	mk("FxOwnPkg",
+		Method{Name: "Attach", Params: []Param{{t.SrcName, str}, {"opts", local(t.Locals.Struct)}}},
+		Method{Name: "Detach", Params: []Param{{"opts", local(t.Locals.Struct)}, {t.SrcName, str}}},
+		Method{Name: "Both", Params: []Param{{"", local(t.Locals.Struct)}, {"", ptr(local(t.Locals.Struct))}}, Results: []Param{{"", local(t.Locals.Key)}}})
+	if b.hz.UnsafePointer {
+		up := pkgT(b.std("unsafe"), "Pointer")
+		mk("FxRawMem",
+			Method{Name: "Alloc", Params: []Param{{"unsafe", bl}, {"hint", up}}, Results: []Param{{"", up}}},
+			Method{Name: "Free", Params: []Param{{"p", up}, {"unsafe", bl}}},
+			Method{Name: "Scan", Params: []Param{{"unsafe", bl}}, Results: []Param{{"", slice(up)}}})
+	}
 	// unnamed parameters whose derived name is a std package that the next parameter brings in
 	tm, cx := b.std("time"), b.std("context")
 	mk("FxShadow",
